@@ -532,30 +532,29 @@ example :
     (Model.RefLedger.Warn.observe true .dflt .hasattr).out = .swallowed ∧
     (Model.RefLedger.Warn.observe false .error .hasattr).out = .orig := by decide
 
-/-- The statement "no field is released before it is stored again" (a
-`Py_DECREF` / `Py_XDECREF` applied directly to a struct field that the same
-function assigns afterwards: the release can run finalizers - and, when the new
-value is the old one, frees it - while the field still points to the released
-object).  FALSE for the pinned tree: `_trait_set_validate` does
-`Py_XDECREF(trait->py_validate); trait->py_validate = validate;` (F79). -/
-def C18_no_release_before_store : Prop :=
-  ∀ r ∈ CTables.fieldReleases, r.2.2 = false
-
-/-- Everywhere else it holds: `_trait_set_validate` is the only function of the
-working tree that releases a field it then stores (translated; `trait_clone`
-releasing the target's fields before copying breaks this theorem). -/
-theorem C18_no_release_before_store_partial :
-    ∀ r ∈ CTables.fieldReleases, r.2.2 = true → r = ("_trait_set_validate", "trait->py_validate", true) := by
+/-- **No field is released before it is stored again, and no store forgets
+the old reference.**  In the working tree's `ctraits.c` no `Py_DECREF` /
+`Py_XDECREF` is applied directly to a struct field that the same function
+assigns afterwards (the release could run finalizers - and, when the new value
+is the old one, free it - while the field still points to the released object:
+F79, repaired d96fc77), and every store into a reference field of a trait
+(`trait->F = …`, `&trait->F` handed to `PyArg_ParseTuple`) first puts the old
+content into a local that is released after the store, or goes through
+`set_value` (F79b, repaired 86511b4).  (Translated: releasing the target's fields
+at the top of `trait_clone`, or dropping one of the late `Py_XDECREF(old_…)`,
+breaks it.) -/
+theorem C18_no_release_before_store :
+    (∀ r ∈ CTables.fieldReleases, r.2.2 = false) ∧
+    ("trait_clone", "handler", "saved") ∈ CTables.traitFieldStores ∧
+    ("_trait_set_validate", "py_validate", "saved") ∈ CTables.traitFieldStores ∧
+    ("_trait_setstate", "default_value", "saved") ∈ CTables.traitFieldStores ∧
+    ∀ r ∈ CTables.traitFieldStores, r.2.2 = "saved" ∨ r.2.2 = "set_value" := by
   decide
 
-theorem C18_no_release_before_store_is_false : ¬ C18_no_release_before_store := by
-  unfold C18_no_release_before_store
-  decide
-
-/-- **`trait_clone` owns what it copies and releases nothing**: every
-reference-holding field of `trait_object` that it copies from the source is
-INCREF'ed afterwards, the two fields it does not copy are `notifiers` and
-`obj_dict`, and (previous theorem) it releases no field. -/
+/-- **`trait_clone` owns what it copies**: every reference-holding field of
+`trait_object` that it copies from the source is INCREF'ed afterwards, the two
+fields it does not copy are `notifiers` and `obj_dict`, and it releases no
+field directly (previous theorem: only the remembered old contents, last). -/
 theorem C18_clone_owns_what_it_copies :
     (∀ f ∈ CTables.traitObjectFields, (f, true) ∈ CTables.traitCloneCopies ∨ f = "notifiers" ∨ f = "obj_dict") ∧
     (∀ c ∈ CTables.traitCloneCopies, c.2 = true → c.1 ∈ CTables.traitObjectFields) ∧
@@ -564,69 +563,73 @@ theorem C18_clone_owns_what_it_copies :
 
 open TraitsVerif.Model.RefLedger.Raw TraitsVerif.Lemmas.Raw in
 /-- **Raw `CTrait` calls keep every pointer backed by a reference - aliased
-arguments included.**  For the entry points that store before they release
-(`set_value`: handler / post_setattr / `__dict__`; `_trait_set_default_value`;
-`Py_CLEAR`), for those that release nothing (`_trait_set_property`,
-`trait_clone`), for `t.__setstate__(s.__getstate__())`, for the getters and for
-a field set again from its own getter: if every slot was backed by a reference
-before the call, it is at every point where foreign code can run during the call
-(after each DECREF) and after it.  Slots, objects and sources are arbitrary:
-`t.clone(t)`, a setter given the object the field already holds and cloning
-into a trait that holds objects are instances. -/
-theorem C18_raw_calls_safe (s : MS) (h : s.Inv) (op : Raw.Op) (hop : ∀ i new, op ≠ .setEarly i new) :
+arguments included.**  For every modelled entry point (`set_value`: handler /
+post_setattr / `__dict__`; `_trait_set_default_value`; `_trait_set_validate`;
+`Py_CLEAR`; `_trait_set_property`; `trait_clone`;
+`t.__setstate__(s.__getstate__())`; the getters; a field set again from its own
+getter): if every slot was backed by a reference before the call, it is at every
+point where foreign code can run during the call (after each DECREF) and after
+it.  Slots, objects and sources are arbitrary: `t.clone(t)`, a setter given the
+object the field already holds and cloning into a trait that holds objects are
+instances (`WF`: the slots written by one call are different fields). -/
+theorem C18_raw_calls_safe (s : MS) (h : s.Inv) (op : Raw.Op) (hwf : op.WF) :
     Safe (compile s op) s := by
   cases op with
   | set i new => exact safe_set i new s h
-  | setEarly i new => exact absurd rfl (hop i new)
   | clear i => exact safe_clear i s h
-  | put ws => exact safe_put' ws s h
-  | copy dst src => exact safe_copy dst src s h
-  | restate dst src => exact safe_restate dst src s h
-  | reset i early => exact safe_reset i early s h
+  | put ws => exact safe_put ws s h hwf
+  | copy dst src => exact safe_copy dst src s h hwf.1
+  | restate dst src => exact safe_restate dst src s h hwf.1
+  | reset i => exact safe_reset i s h
   | read is => exact safe_read is s h
 
 open TraitsVerif.Model.RefLedger.Raw TraitsVerif.Lemmas.Raw in
-/-- `trait_clone` / `_trait_set_property` never release anything: no checkpoint at all. -/
-theorem C18_raw_clone_never_releases (s : MS) (dst src : List Nat) (ws : List (Nat × Option Nat)) :
-    checkpoints (compile s (.copy dst src)) s = [] ∧ checkpoints (compile s (.put ws)) s = [] := by
-  constructor <;> simp [compile, checkpoints_append, checkpoints_stores, checkpoints_incs]
-
-/-- The same statement for `_trait_set_validate` (release, then store).  FALSE
-for the pinned tree (F79): a trait holding the only reference to its validator
-`1` is given validator `2`; when `1` is released - its finalizer runs - the
-field still points to it. -/
-def C18_raw_set_validate_safe : Prop :=
-  ∀ (s : Model.RefLedger.Raw.MS) (i new : Nat), s.Inv →
-    Model.RefLedger.Raw.Safe (Model.RefLedger.Raw.compile s (.setEarly i new)) s
+/-- **Raw `CTrait` calls are reference-neutral**: for every object, the
+references that no slot accounts for (the caller's, or leaked ones) are the
+same after the call as before - nothing is leaked and nothing is released that
+a slot or the caller still owns, for `t.clone(t)` and cloning into a used trait
+as for a fresh one. -/
+theorem C18_raw_calls_neutral (s : MS) (op : Raw.Op) (hwf : op.WF) (hr : op.InRange s) (o : Nat) :
+    (run (compile s op) s).slack o = s.slack o := by
+  cases op with
+  | set i new => exact neutral_set i new s hr o
+  | clear i => exact neutral_clear i s hr o
+  | put ws => exact putEvents_neutral ws s s rfl hwf hr o
+  | copy dst src =>
+    exact putEvents_neutral _ s s rfl (zip_fst_nodup dst _ hwf.1)
+      (fun w hw => hr _ (List.of_mem_zip hw).1) o
+  | restate dst src => exact neutral_restate dst src s hwf.1 hr o
+  | reset i => exact neutral_reset i s o
+  | read is => exact neutral_read is s o
 
 open TraitsVerif.Model.RefLedger.Raw TraitsVerif.Lemmas.Raw in
-/-- It holds when there is nothing to release, when the new validator IS the
-old one (the aliased call), or when someone else keeps the old one alive. -/
-theorem C18_raw_set_validate_safe_partial (s : MS) (i new : Nat) (h : s.Inv)
-    (hx : s.at i = none ∨ s.at i = some new ∨ ∃ p, s.at i = some p ∧ (s.held p : Int) < s.rc p) :
-    Safe (compile s (.setEarly i new)) s :=
-  safe_setEarly i new s h hx
+/-- `_trait_set_validate` (store, then release - since d96fc77) is safe for every trait, every old and every
+new validator. -/
+theorem C18_raw_set_validate_safe (s : MS) (i new : Nat) (h : s.Inv) : Safe (compile s (.set i new)) s :=
+  safe_set i new s h
 
-theorem C18_raw_set_validate_safe_is_false : ¬ C18_raw_set_validate_safe := fun h =>
-  Lemmas.Raw.setEarly_unsafe (h _ 0 2 Lemmas.Raw.soleValidator_inv)
+open TraitsVerif.Model.RefLedger.Raw TraitsVerif.Lemmas.Raw in
+/-- `Safe` can fail, and the order of the events is what decides: release-then-store (the code before d96fc77)
+on a trait that owns the only reference to its validator. -/
+example : soleValidator.Inv ∧ ¬ Safe [.incref 2, .decref 1, .store 0 (some 2)] soleValidator :=
+  ⟨soleValidator_inv, release_before_store_unsafe⟩
 
 open TraitsVerif.Model.RefLedger.Raw in
 /-- Non-vacuity: a trait (slots 0-5) that owns the only reference to its four
-objects is cloned onto itself - every object keeps a positive count and no
-checkpoint exists; `__setstate__` with its own `__getstate__` likewise; the two
-calls leave one reference too many per object (they overwrite without
-releasing: F79b). -/
+objects is cloned onto itself and restored from its own state: the pointers and
+every count are as before, no object is ever without a reference at a
+checkpoint; replacing the validator shows the old one to nobody while it dies. -/
 example :
     let s0 : MS := { ptr := [some 1, some 2, some 3, none, none, some 4],
                      rc := fun o => if 1 ≤ o ∧ o ≤ 4 then 1 else 0 }
     let b := [0, 1, 2, 3, 4, 5]
     let r1 := step s0 (.copy b b)
     let r2 := step s0 (.restate b b)
-    r1.1.length = 0 ∧ r1.2.ptr = s0.ptr ∧ [1, 2, 3, 4].map r1.2.rc = [2, 2, 2, 2] ∧
-    r2.2.ptr = s0.ptr ∧ [1, 2, 3, 4].map r2.2.rc = [2, 2, 2, 2] ∧
+    r1.1.length = 4 ∧ r1.2.ptr = s0.ptr ∧ [1, 2, 3, 4].map r1.2.rc = [1, 1, 1, 1] ∧
+    r1.1.all (fun c => [1, 2, 3, 4].all (fun o => decide (1 ≤ c.rc o))) = true ∧
+    r2.2.ptr = s0.ptr ∧ [1, 2, 3, 4].map r2.2.rc = [1, 1, 1, 1] ∧
     visibleDying r2.1 [1, 2, 3, 4] = [] ∧
-    visibleDying (step s0 (.setEarly 1 7)).1 [1, 2, 3, 4] = [2] ∧
-    visibleDying (step s0 (.set 0 7)).1 [1, 2, 3, 4] = [] := by
+    visibleDying (step s0 (.set 1 7)).1 [1, 2, 3, 4] = [] ∧ (step s0 (.set 1 7)).2.rc 2 = 0 := by
   decide
 
 end TraitsVerif.Props.C18
